@@ -37,7 +37,12 @@ Inductive stream := Out | Err.
 (* the four settings of a step that matter here *)
 Record cfg := { c_stdout : bool; c_stderr : bool; c_output : bool; c_script : bool }.
 
-Definition upd {X} (f : nat -> X) (k : nat) (v : X) : nat -> X := fun i => if i =? k then v else f i.
+(* finite maps with a default (association lists: an overwritten value is dropped, which keeps the evaluation of
+   the model on megabyte-sized runs cheap) *)
+Fixpoint mget {X} (d : X) (m : list (nat * X)) (k : nat) : X :=
+  match m with [] => d | (k', v) :: r => if k =? k' then v else mget d r k end.
+Fixpoint mset {X} (m : list (nat * X)) (k : nat) (v : X) : list (nat * X) :=
+  match m with [] => [(k, v)] | (k', v') :: r => if k =? k' then (k, v) :: r else (k', v') :: mset r k v end.
 
 (* paths: 0 = the `stdout:` file, 1 = the `stderr:` file, 2 + k = the log file of attempt k
    (its name carries the start time in milliseconds; attempts start in different milliseconds) *)
@@ -63,9 +68,9 @@ Record node := {
   n_done : bool }.
 
 Record st := {
-  disk : nat -> bytes;            (* path -> content *)
-  fds : nat -> fdesc;  nfd : nat;
-  bufs : nat -> bufw;  nbuf : nat;
+  disk : list (nat * bytes);      (* path -> content *)
+  fds : list (nat * fdesc);  nfd : nat;
+  bufs : list (nat * bufw);  nbuf : nat;
   nd : node;
   w_out : wire; w_err : wire;     (* wiring of the running attempt (setupExec) *)
   shared : bool;                  (* Stdout == Stderr: one pipe, one copying goroutine *)
@@ -77,9 +82,14 @@ Record st := {
   outvar : option bytes           (* bytes read from the capture pipe after the last finished attempt *)
 }.
 
+Definition no_fd : fdesc := {| fd_path := 0; fd_closed := true |}.
+Definition no_buf : bufw := {| bw_buf := []; bw_fd := 0; bw_err := false |}.
+Definition dsk (s : st) (p : nat) : bytes := mget [] (disk s) p.
+Definition fdd (s : st) (f : nat) : fdesc := mget no_fd (fds s) f.
+Definition buf (s : st) (b : nat) : bufw := mget no_buf (bufs s) b.
+
 Definition init : st :=
-  {| disk := fun _ => []; fds := fun _ => {| fd_path := 0; fd_closed := true |}; nfd := 0;
-     bufs := fun _ => {| bw_buf := []; bw_fd := 0; bw_err := false |}; nbuf := 0;
+  {| disk := []; fds := []; nfd := 0; bufs := []; nbuf := 0;
      nd := {| n_logW := None; n_outW := None; n_errW := None; n_logF := None; n_outF := None; n_done := false |};
      w_out := WMulti []; w_err := WMulti []; shared := true; pipe := []; pslots := []; blocked := false;
      brk_o := false; brk_e := false; logpath := 0; outvar := None |}.
@@ -106,36 +116,36 @@ Definition set_log (s : st) lp ov := {| disk := disk s; fds := fds s; nfd := nfd
 (* ---- files ---------------------------------------------------------------------------------------- *)
 (* OpenOrCreateFile: the content of an existing file is kept and writes append *)
 Definition open (s : st) (path : nat) : st * nat :=
-  (set_fds s (upd (fds s) (nfd s) {| fd_path := path; fd_closed := false |}) (S (nfd s)), nfd s).
+  (set_fds s (mset (fds s) (nfd s) {| fd_path := path; fd_closed := false |}) (S (nfd s)), nfd s).
 Definition close (s : st) (fd : nat) : st :=
-  set_fds s (upd (fds s) fd {| fd_path := fd_path (fds s fd); fd_closed := true |}) (nfd s).
+  set_fds s (mset (fds s) fd {| fd_path := fd_path (fdd s fd); fd_closed := true |}) (nfd s).
 (* write(2) on a descriptor: fails when it has been closed *)
 Definition fd_write (s : st) (fd : nat) (p : bytes) : st * bool :=
-  let d := fds s fd in
+  let d := fdd s fd in
   if fd_closed d then (s, false)
-  else (set_disk s (upd (disk s) (fd_path d) (disk s (fd_path d) ++ p)), true).
+  else (set_disk s (mset (disk s) (fd_path d) (dsk s (fd_path d) ++ p)), true).
 
 (* ---- bufio.Writer ---------------------------------------------------------------------------------- *)
 Definition new_buf (s : st) (fd : nat) : st * nat :=
-  (set_bufs s (upd (bufs s) (nbuf s) {| bw_buf := []; bw_fd := fd; bw_err := false |}) (S (nbuf s)), nbuf s).
-Definition put_buf (s : st) (b : nat) (w : bufw) : st := set_bufs s (upd (bufs s) b w) (nbuf s).
+  (set_bufs s (mset (bufs s) (nbuf s) {| bw_buf := []; bw_fd := fd; bw_err := false |}) (S (nbuf s)), nbuf s).
+Definition put_buf (s : st) (b : nat) (w : bufw) : st := set_bufs s (mset (bufs s) b w) (nbuf s).
 
 (* write `p` straight to the underlying file of b, keeping `keep` as the new buffer content *)
 Definition bw_raw (s : st) (b : nat) (p keep : bytes) : st * bool :=
-  let w := bufs s b in
+  let w := buf s b in
   let '(s1, ok) := fd_write s (bw_fd w) p in
   if ok then (put_buf s1 b {| bw_buf := keep; bw_fd := bw_fd w; bw_err := false |}, true)
   else (put_buf s1 b {| bw_buf := bw_buf w; bw_fd := bw_fd w; bw_err := true |}, false).
 
 (* Flush *)
 Definition bw_flush (s : st) (b : nat) : st * bool :=
-  let w := bufs s b in
+  let w := buf s b in
   if bw_err w then (s, false)
   else match bw_buf w with [] => (s, true) | _ => bw_raw s b (bw_buf w) [] end.
 
 (* Write: while len(p) > Available: empty buffer => write p directly; else fill, flush, go on *)
 Definition bw_write (s : st) (b : nat) (p : bytes) : st * bool :=
-  let w := bufs s b in
+  let w := buf s b in
   if bw_err w then (s, false)
   else
     let avail := BUFSZ - length (bw_buf w) in
@@ -154,7 +164,7 @@ Definition bw_write (s : st) (b : nat) (p : bytes) : st * bool :=
    itself, i.e. the chunk goes straight to the file; otherwise the buffer is filled first (not reachable in
    the wiring of setupExec, kept for faithfulness) *)
 Definition bw_readfrom (s : st) (b : nat) (p : bytes) : st * bool :=
-  let w := bufs s b in
+  let w := buf s b in
   if bw_err w then (s, false)
   else match bw_buf w with [] => bw_raw s b p [] | _ => bw_write s b p end.
 
@@ -294,9 +304,9 @@ Inductive is_merge : bytes -> bytes -> bytes -> Prop :=
    - the `stderr:` file ends with every stderr byte. *)
 Definition complete (c : cfg) (cs : list chunk) (s : st) : Prop :=
   blocked s = false
-  /\ disk s (logpath s) = log_of c cs
-  /\ (c_stdout c = true -> is_suffix (log_of c cs) (disk s P_STDOUT))
-  /\ (c_stderr c = true -> is_suffix (err_of cs) (disk s P_STDERR)).
+  /\ dsk s (logpath s) = log_of c cs
+  /\ (c_stdout c = true -> is_suffix (log_of c cs) (dsk s P_STDOUT))
+  /\ (c_stderr c = true -> is_suffix (err_of cs) (dsk s P_STDERR)).
 
 End Model.
 
